@@ -151,6 +151,10 @@ FOCUS_TEMPLATES = [
     ("for $k in %s return apply(function($x) { $x }, [$k, $k])", lambda q: ['error', 'FOAP0001'], 'apply-errors'),
     ("for $k in %s return (function-arity(map{$k: 1, 'z': 2}), function-arity([$k, $k, $k]), apply(map{$k: $k + 1}, [$k]), apply([7, 8, 9], [($k mod 3) + 1]))",
      lambda q: [y for x in q for y in (['int', '1'], ['int', '1'], ['int', str(x + 1)], ['int', str(7 + x % 3)])], 'apply-errors'),
+    # the body of an inline function sees its closure, not the variables in scope where it is called
+    ("let $f := function() { $z } return for $z in %s return $f()", lambda q: ['error', 'XPST0008'], 'dynamic-scope'),
+    ("let $f := function($a) { $a + $z } return (for $z in %s return 1, $f(1))", lambda q: ['error', 'XPST0008'], 'dynamic-scope'),
+    ("let $z := 5, $f := function($a) { $a + $z } return for $z in %s return $f($z)", lambda q: _ints([x + 5 for x in q]), 'dynamic-scope'),
     # for-each-pair with two lazy operands that depend on the focus (predicates with position()/last(), paths)
     ("for-each-pair(%s[position() ge 1][. ge last() - last()], %s[. ge 0][position() le last()], function($a, $b) { $a * 10 + $b })",
      lambda q: _ints([x * 11 for x in q]), 'for-each-pair-lazy-operands'),
